@@ -435,7 +435,8 @@ Record world := mkW {
   w_conf : meta;                        (* lock backend: the config register ({} = []) *)
   w_meta : list (N * meta);             (* live instances and their in-memory meta *)
   w_os : list (ikey * ostate);          (* per instance and origin: cache + request in the mutex *)
-  w_bucket : list (bytes * stored);     (* object store: last upload of <origin hash>/checkpoint *)
+  w_bucket : list (bytes * stored);     (* object store: every effective upload of <origin hash>/checkpoint, oldest
+                                           first (the object is the last one of its origin) *)
   w_nstamp : N;                         (* signing counter, see st_stamp *)
   (* ghost state (never read by the transitions): *)
   w_hist : list (bytes * stored);       (* every Replace that took effect, oldest first *)
@@ -470,7 +471,7 @@ Definition os_set (l : list (ikey * ostate)) (k : ikey) (v : ostate) : list (ike
 Definition reg_set (l : list (bytes * regval)) (o : bytes) (v : regval) : list (bytes * regval) :=
   (o, v) :: filter (fun e => negb (bytes_eqb o (fst e))) l.
 Definition bucket_set (l : list (bytes * stored)) (o : bytes) (v : stored) : list (bytes * stored) :=
-  (o, v) :: filter (fun e => negb (bytes_eqb o (fst e))) l.
+  l ++ [(o, v)].
 Definition inst_set (l : list (N * meta)) (i : N) (m : meta) : list (N * meta) :=
   (i, m) :: filter (fun e => negb (i =? fst e)) l.
 
